@@ -21,6 +21,9 @@ structure MetaRec where
   tokens : List Token
   deriving Repr, DecidableEq
 
+/-- a meta of the ingestion model as the record that is marshalled -/
+def Meta.toRec (m : Meta) : MetaRec := ⟨m.mid, m.rid, m.size, m.tokens.map fun t => ⟨t.1, t.2⟩⟩
+
 def le64 (n : Nat) : Bytes :=
   [n % 256, n / 256 % 256, n / 65536 % 256, n / 16777216 % 256, n / 4294967296 % 256,
     n / 1099511627776 % 256, n / 281474976710656 % 256, n / 72057594037927936 % 256]
